@@ -138,7 +138,17 @@ def run_unit(root, module, prop, tier, seed, rebaseline=False):
     rec["smt_ms"] = sum(a.get("smt_ms", 0) for a in attempts[-1:])
     rec["verus_wall_s"] = round(sum(a["wall_s"] for a in attempts), 2)
     rec["attempts"] = len(attempts)
+    rec["prop"] = prop
+    rec["known_names"] = {k.get("obligation") for k in load_known(root)[0] if k.get("property") == prop}
     classify_unit(rec, r, meta, base, changed, text)
+    rec.pop("known_names", None)
+    if rec.get("known_failed"):
+        # hand the known-finding obligations to finish(); they never turn an otherwise green unit red by themselves
+        if rec["status"] == "ok":
+            rec["status"] = "failed"
+            rec["failed"] = list(rec["known_failed"])
+        elif rec["status"] == "failed":
+            rec["failed"] = list(rec.get("failed", [])) + list(rec["known_failed"])
     rec["wall_s"] = round(time.time() - t0, 2)
     return rec
 
@@ -263,9 +273,28 @@ def classify_unit(rec, r, meta, base, changed, text):
         if lm and lm["kind"] == "prelude" and ln and CANARY in "\n".join(lines[max(0, ln - 4):ln + 2]):
             continue  # the canary's own expected failure
         name = lm["name"] if lm else "?"
+        if lm and lm.get("kind") not in ("fn",) and ln:
+            # a lemma / proof fn inside a contract file: name the obligation after the function, not after the file
+            for k in range(min(ln, len(lines)) - 1, max(0, ln - 80), -1):
+                mfn = re.match(r"\s*(?:pub\s+)?(?:broadcast\s+)?(?:proof\s+|exec\s+)?fn\s+(\w+)", lines[k])
+                if mfn:
+                    name = mfn.group(1)
+                    break
         src_line = lines[ln - 1].strip() if ln and ln <= len(lines) else ""
         failed.append({"function": name, "where": (lm or {}).get("where", (lm or {}).get("name", "?")), "kind": e.get("kind", "other"),
                        "msg": e["msg"], "gen_line": ln, "text": src_line, "verifier": "\n".join(e["text"])[:3000]})
+    # obligations listed as KNOWN findings (known_findings.txt, `finding:` lines) are genuine, recorded defects of the unchanged tree: they are
+    # set aside here — the guards below (baseline, scope, ..) speak about the OTHER failed obligations — and handed to finish(), which prints
+    # the KNOWN-FINDING line while the witness still reproduces
+    kn = rec.get("known_names") or set()
+    known_part = [x for x in failed if f"{rec.get('prop')}.{rec.get('unit')}.{x['function']}.{x['kind']}" in kn]
+    if known_part:
+        rec["known_failed"] = known_part
+        failed = [x for x in failed if x not in known_part]
+        kf_funcs = {x["function"] for x in known_part}
+        if not failed and all(f["success"] or any(f["function"].endswith(k) for k in kf_funcs) for f in real):
+            rec["status"] = "ok"
+            return
     if not failed and all(f["success"] for f in real):
         rec["status"] = "ok"
         return
